@@ -368,3 +368,23 @@ Proof.
   - inversion H. auto.
   - callback_recv_tac H t s segs e rest.
 Qed.
+
+(* a stream that ends by an error (for a TLS stream: without close-notify) is never reported as complete *)
+Theorem truncated_stream_is_error t : forall segs prev s ev r p s' cb',
+  recv_loop t prev s segs DErr None = (ev, r, p, s', cb') -> r = PThrow.
+Proof.
+  induction segs as [|seg rest IH]; intros prev s ev r p s' cb' H.
+  - cbn in H. inversion H. reflexivity.
+  - cbn [recv_loop] in H. destruct (sink_write t prev seg) as [o p0].
+    destruct (sink_fails s); [inversion H; reflexivity|].
+    destruct (recv_loop t p0 (sink_next s) rest DErr None) as [[[[e2 r2] p2] s2] c2] eqn:R.
+    inversion H; subst. eapply IH; exact R.
+Qed.
+
+Theorem truncated_download_throws t s segs ev r cb' :
+  data_recv t s segs DErr None = (ev, r, cb') -> r = PThrow.
+Proof.
+  intro H. unfold data_recv in H. cbn [start_events] in H.
+  destruct (recv_loop t false s segs DErr None) as [[[[ev1 r1] p] s1] cb2] eqn:R.
+  rewrite (truncated_stream_is_error t _ _ _ _ _ _ _ _ R) in H. inversion H. reflexivity.
+Qed.
